@@ -151,6 +151,15 @@ CHECKS = {
              'failed transaction.',
         design='5/C19', technique='TLA+ pool model (TLC exhaustive, deviation switch) + TLC trace validation of real pool executions',
         note='In-memory scripted downstream; HTTP pool clients not driven yet. ' + TB),
+    'C02': dict(
+        level='model_checking',
+        text='EdgeHandoff.tla models one client transaction (N envelopes after the policies, every write ending ok or failed, '
+             'the reply) and TLC checks ack => all stored, no early ack, failure reported, and finds the false acknowledgement '
+             'with the first-result-only and early-ack deviations. The complete finite matrix policy chain x recipients x failing '
+             'write position and kind x slow writes x {real SMTP session, real WsgiEdge call} and the ProxyQueue results are '
+             'executed on the real edges and Queue and validated by TLC against the edge observer.',
+        design='5/C02', technique='TLA+ handoff model (TLC exhaustive, deviation switches) + exhaustive fault matrix on the real edges validated by TLC',
+        note='Storage is a DictStorage subclass that fails / blocks on the k-th write. ' + TB),
 }
 
 HOOK_COMMITS = []
